@@ -262,6 +262,22 @@ pub fn run_fq2(a: &Args, out: &mut Out) {
             });
         }
     }
+    // sweep: operands with a component whose Montgomery representation is a tiny integer / a single limb, the other component zero
+    if a.focus != "nosweep" {
+        let zero32 = vec![0u8; 32];
+        for (i, v) in pool.lo.iter().enumerate() {
+            let x = fq2_of(&pool.vals[(i * 53 + 7) % pool.vals.len()], &pool.vals[(i * 31 + 3) % pool.vals.len()]);
+            for y in [fq2_of(v, &zero32), fq2_of(&zero32, v), fq2_of(v, v)] {
+                let (sx, sy) = (x.to_slice(), y.to_slice());
+                for (l, r, sl, sr) in [(x, y, sx, sy), (y, x, sy, sx)] {
+                    out.call("f2.mul", json!({"form": "vv", "a": b(&sl), "b": b(&sr)}), || {
+                        let p = l * r;
+                        outs! {"out" => b(&p.to_slice()), "outz" => Value::Bool(p.is_zero()), "outeq" => Value::Bool(Some(p) == Fq2::from_slice(&p.to_slice()))}
+                    });
+                }
+            }
+        }
+    }
     let mut k = 0u64;
     while !out.full() {
         k += 1;
